@@ -7,7 +7,7 @@ the two parts is certified inside Coq against the implementation's image of the 
 import math
 from fractions import Fraction
 
-from .. import core
+from .. import core, history
 from . import c04
 
 PID = "C11"
@@ -97,7 +97,7 @@ def _integerise(rng, c, wcls):
         c[key] = pts
 
 
-def generate(rng, tier):
+def _relation_cases(rng, tier):
     n = 153 if tier == "quick" else 3000
     cases = []
     for i in range(n):
@@ -182,6 +182,244 @@ def generate(rng, tier):
     return cases
 
 
+# ---- sizes just above typical block sizes -----------------------------------------------------
+BLOCKS_QUICK = [48, 512, 4096]
+BLOCKS_MORE = [32, 64, 100, 128, 256, 1000, 1024, 2048]
+BLOCKS_THOROUGH = [8192, 10000]
+CFG_KEYS = ("birth_range", "pers_range", "pixel_size", "kernel", "weight")
+LAYOUTS = ["f64", "f64", "f64_F", "f64_view", "f64_ro", "list_float"]
+
+
+def _grid_pts(rng, cfg, n, skew):
+    """n points on the grid k/1024 around the window (a tenth of them outside), persistence > 0."""
+    (b0, b1), (p0, p1) = cfg["birth_range"], cfg["pers_range"]
+    nb, npx = int((b1 - b0) * 1024), int((p1 - p0) * 1024)
+    out = []
+    for _ in range(n):
+        b = b0 + rng.randint(-100, nb + 100) / 1024
+        p = max(p0 + rng.randint(-100, npx + 100) / 1024, 1 / 1024)
+        out.append([b, (b + p) if skew else p])
+    return out
+
+
+def _big_case(rng, rel, T, path=None):
+    """A diagram (or a union / a collection) whose size is just above the block size T and not a multiple of it;
+    path = "iso" (the isotropic-Gaussian fast path) / "general" (the kernel-function path) / None (either)."""
+    small = T <= 600
+    iso, gen = ["iso_scalar", "iso_matrix"], ["axis", "uniform"] + (["corr_mid", "corr_top"] if small else [])
+    kcls = rng.choice({"iso": iso, "general": gen}.get(path, iso + iso + gen))
+    wcls = rng.choice(["pers_nat", "pers_real", "ramp", "user"])
+    res = rng.choice([(3, 3), (5, 4), (4, 6), (8, 7)] + ([(33, 3), (3, 65), (17, 9)] if small else []))
+    base = c04._case(rng, kcls, wcls, "mixed", res, 1, True, True)
+    c = {k: base[k] for k in CFG_KEYS}
+    skew = True if rel == "skew" else rng.random() < 0.6
+    n = T + rng.randint(1, max(2, T // 8))
+    c.update(skew=skew, rel=rel, cls="size>%d/%s/%s/%s" % (T, rel, kcls.split("_")[0], wcls), block=T,
+             container=rng.choice(["f64", "f64", "f64_F", "f64_view", "list_float"] if small else ["f64", "f64", "f64_view"]))
+    if rel == "many":
+        # a COLLECTION of n small diagrams drawn from a pool of a dozen points
+        pool = _grid_pts(rng, c, 12, skew)
+        c["dgms"] = [[list(rng.choice(pool)) for _ in range(rng.randint(1, 3))] for _ in range(n)]
+        c["njobs"] = [1, 2] if rng.random() < 0.5 else [1]
+        c["A"], c["B"] = [], []
+        return c
+    if rel in ("collection", "skew"):
+        na = n
+    elif rng.random() < 0.7:
+        na = rng.randint(n // 3, (2 * n) // 3)        # both parts below the block size, the union above
+    else:
+        na = n - rng.randint(1, max(1, T // 4))        # one part above the block size already
+    pts = _grid_pts(rng, c, n, skew)
+    c["A"], c["B"] = pts[:na], pts[na:]
+    if rel == "collection":
+        c["B"] = _grid_pts(rng, c, rng.randint(1, 4), skew)
+        c["C"] = _grid_pts(rng, c, rng.randint(1, 4), skew)
+    if rel == "permutation":
+        perm = list(range(n))
+        rng.shuffle(perm)
+        c["perm"] = perm
+    return c
+
+
+def _big_cases(rng, tier):
+    out = []
+    if tier == "quick":
+        blocks = BLOCKS_QUICK + [rng.choice(BLOCKS_MORE)]
+        for T in blocks:
+            # both code paths see a re-ordering relation at every block size
+            flip = rng.random() < 0.5
+            out.append(_big_case(rng, "additivity", T, "general" if flip else "iso"))
+            out.append(_big_case(rng, "permutation", T, "iso" if flip else "general"))
+            out.append(_big_case(rng, rng.choice(["additivity", "permutation"]), T))
+            out.append(_big_case(rng, "nonneg_total", T, "iso" if rng.random() < 0.7 else "general"))
+        out.append(_big_case(rng, "collection", rng.choice(blocks)))
+        out.append(_big_case(rng, "skew", rng.choice(blocks)))
+        out.append(_big_case(rng, "many", 48))
+        out.append(_big_case(rng, "many", 512))
+        return out
+    for rep in range(3):
+        for T in BLOCKS_QUICK + BLOCKS_MORE + BLOCKS_THOROUGH:
+            for rel in ("additivity", "permutation", "nonneg_total", "collection", "skew", "many"):
+                if rel == "many" and T > 4096 and rep:
+                    continue
+                out.append(_big_case(rng, rel, T))
+    return out
+
+
+# ---- call histories on ONE imager object ----------------------------------------------------------
+HIST_KINDS = ["kernel_sweep", "weight_sweep", "window_sweep", "refit", "fault", "diagram_sweep"]
+STEP_RELS = ["styles", "styles", "additivity", "permutation", "skew", "collection", "nonneg_total"]
+
+
+def _distinct(rng, draw, prev):
+    for _ in range(20):
+        x = draw()
+        if x != prev:
+            return x
+    return x
+
+
+def _ft_points(rng, dyadic):
+    pts = []
+    for kk in range(rng.randint(2, 5)):
+        b = rng.uniform(0.5, 3.0) + 0.25 * kk
+        p = rng.uniform(0.2, 2.0) + 0.125 * kk
+        if dyadic:
+            b, p = round(b * 16) / 16, round(p * 16) / 16
+        pts.append([b, b + p])
+    return pts
+
+
+def _history(rng, kind):
+    """Steps are ordinary relation instances; they run one after the other on ONE imager that is re-configured
+    through its public attributes between them, on diagram objects shared by identity."""
+    kcls0 = rng.choice(["iso_scalar", "iso_scalar", "iso_matrix", "axis", "uniform", "corr_mid"])
+    if kind in ("kernel_sweep", "diagram_sweep"):
+        kcls0 = rng.choice(["iso_scalar", "iso_matrix"])
+    wcls0 = rng.choice(["pers_nat", "pers_real", "ramp", "user"])
+    res = rng.choice([(2, 2), (2, 3), (3, 2), (4, 3)])
+    base = c04._case(rng, kcls0, wcls0, "mixed", res, 1, True, True)
+    cfg = {k: base[k] for k in CFG_KEYS}
+    ps = cfg["pixel_size"]
+    skew = rng.random() < 0.6
+    cont = rng.choice(LAYOUTS)
+    pool = [_pts(rng, base, rng.randint(2, 5), skew, "pers_real", True) for _ in range(4)]
+    if rng.random() < 0.7:
+        # diagrams share coordinates (every H0 class is born at the same value) and whole pairs
+        b0 = pool[0][0][0]
+        for P in pool:
+            for pt in P[:max(1, len(P) // 2)]:
+                p = (pt[1] - pt[0]) if skew else pt[1]
+                pt[0], pt[1] = b0, ((b0 + p) if skew else p)
+        pool[1].append(list(pool[0][-1]))
+        pool[2].append(list(pool[0][0]))
+        pool[3].append(list(pool[1][0]))
+
+    def step(cf, rel, trio=(0, 1, 2), reconf="assign"):
+        s = {k: cf[k] for k in CFG_KEYS}
+        A, B, C = (pool[t] for t in trio)
+        if rel == "skew" and not skew:
+            rel = "styles"          # the pool is in birth-persistence form: reading it as birth-death is another diagram
+        s.update(skew=skew, rel=rel, cls="step/" + rel, A=A, B=B, C=C, container=cont, reconf=reconf)
+        if rel == "skew":
+            s["skew"] = True
+        if rel == "permutation":
+            perm = list(range(len(A) + len(B)))
+            while len(perm) > 1 and perm == sorted(perm):
+                rng.shuffle(perm)
+            s["perm"] = perm
+        if rel == "styles":
+            s["njobs"] = rng.choice([[1], [1], [1, 2]])
+        if rel == "fit_transform":
+            s.update(skew=True, A=_ft_points(rng, True), B=_ft_points(rng, True), C=[],
+                     as_collection=rng.random() < 0.5, container="list_float" if cont == "list_float" else "f64")
+        return s
+
+    def fault(cf, fkind):
+        s = step(cf, "fault")
+        s.update(fault=True, fault_kind=fkind, cls="step/fault/" + fkind)
+        return s
+
+    def rel_at(i):
+        return "styles" if i % 2 == 1 else rng.choice(STEP_RELS)
+
+    def how():
+        return rng.choice(["assign", "mutate", "deep"])
+    steps = []
+    if kind == "kernel_sweep":
+        ks = [cfg["kernel"]]
+        classes = ["iso_scalar" if cfg["kernel"]["type"] == "gauss_scalar" else "iso_matrix"]
+        classes += [rng.choice(["iso_scalar", "iso_matrix", "axis", "uniform", "corr_mid"]) for _ in range(rng.randint(2, 3))]
+        for kc in classes:
+            ks.append(_distinct(rng, lambda: c04._kernel(rng, kc), ks[-1]))
+        ks.append(ks[0])                                             # ... and back to the first configuration
+        for i, k in enumerate(ks):
+            steps.append(step(dict(cfg, kernel=k), rel_at(i), reconf=how()))
+    elif kind == "weight_sweep":
+        first = cfg["weight"]
+        ws = [first]
+        for wc in [wcls0 if wcls0 != "user" else "ramp"] + [rng.choice(["pers_nat", "pers_real", "ramp", "user"]) for _ in range(rng.randint(2, 3))]:
+            ws.append(_distinct(rng, lambda: c04._weight(rng, wc), ws[-1]) if wc != "user" else {"type": "user"})
+        ws.append(first)
+        for i, w in enumerate(ws):
+            if i and w == ws[i - 1]:
+                continue
+            steps.append(step(dict(cfg, weight=w), rel_at(i), reconf=how()))
+    elif kind == "window_sweep":
+        (b0, b1), (p0, p1) = cfg["birth_range"], cfg["pers_range"]
+        db, dp = rng.choice([-1, 1, 2]) * ps * rng.choice([0.5, 1.0]), rng.choice([0, 1]) * ps * rng.choice([0.5, 1.0])
+        wins = [dict(cfg),
+                dict(cfg, birth_range=[b0 + db, b1 + db]),
+                dict(cfg, birth_range=[b0 + db, b1 + db], pers_range=[p0 + dp, p1 + dp + ps]),
+                dict(cfg, pixel_size=2 * ps),
+                dict(cfg, pixel_size=ps / 2, birth_range=[b0, b0 + ps * max(1, res[0] // 2)]),
+                dict(cfg)]
+        for i, w in enumerate(wins):
+            steps.append(step(w, rel_at(i)))
+    elif kind == "refit":
+        steps = [step(cfg, "fit_transform"), step(cfg, "styles"), step(cfg, "fit_transform"),
+                 step(cfg, rng.choice(STEP_RELS)), step(cfg, "fit_transform"), step(cfg, "styles", trio=(1, 2, 3))]
+    elif kind == "fault":
+        k2 = _distinct(rng, lambda: c04._kernel(rng, kcls0), cfg["kernel"])
+        steps = [step(cfg, "styles"), fault(cfg, "bad_diagram"), step(cfg, "styles", trio=(1, 0, 2)),
+                 fault(cfg, rng.choice(["bad_weight_params", "bad_kernel_params"])), step(cfg, rng.choice(STEP_RELS)),
+                 fault(dict(cfg, kernel=k2), "bad_diagram_parallel"), step(dict(cfg, kernel=k2), "styles", trio=(2, 1, 0)),
+                 step(cfg, "collection")]
+    else:   # diagram_sweep: one configuration, the roles of the shared diagrams rotate
+        trios = [(0, 1, 2), (1, 0, 3), (2, 0, 1), (3, 2, 0), (0, 1, 2)]
+        for i, t in enumerate(trios):
+            steps.append(step(cfg, rel_at(i + 1) if i % 2 == 0 else rng.choice(STEP_RELS), trio=t))
+    return history.make(kind, steps)
+
+
+def _histories(rng, n):
+    return [_history(rng, HIST_KINDS[i % len(HIST_KINDS)]) for i in range(n)]
+
+
+def _styles_cases(rng, n):
+    """Single-call 'styles' instances (alone / collection / workers / union with parts from workers) in every layout."""
+    out = []
+    for i in range(n):
+        kcls, wcls, res, dyadic, base = _cfg(rng, big=True)
+        skew = rng.random() < 0.6
+        c = {k: base[k] for k in CFG_KEYS}
+        c.update(skew=skew, rel="styles", cls="styles/%s/%s" % (kcls.split("_")[0], wcls), njobs=[1, 2] if i % 3 == 0 else [1],
+                 container=LAYOUTS[1:][i % (len(LAYOUTS) - 1)])
+        for key in "ABC":
+            c[key] = _pts(rng, base, rng.randint(1, 5), skew, wcls, dyadic)
+        out.append(c)
+    return out
+
+
+def generate(rng, tier):
+    cases = _relation_cases(rng, tier)
+    quick = tier == "quick"
+    cases += _styles_cases(rng, 10 if quick else 200)
+    cases += _histories(rng, 12 if quick else 240)
+    cases += _big_cases(rng, tier)
+    return cases
+
+
 def corpus():
     base = {"birth_range": [0.0, 1.0], "pers_range": [0.0, 1.5], "pixel_size": 0.5,
             "kernel": {"type": "gauss_scalar", "s": 0.25}, "weight": {"type": "persistence", "n": 1.0}, "skew": True}
@@ -197,21 +435,132 @@ def corpus():
 
 
 # ---- implementation --------------------------------------------------------------------------
-def impl_run(cases):
+INT = ("i64", "list_int")
+MAIN = {"additivity": "AB", "permutation": "AB", "zero_weight": "A", "collection": "A", "skew": "A",
+        "nonneg_total": "AB", "styles": "A"}
+
+
+class _Img(object):
+    """An image returned by persim, kept BY REFERENCE until all calls of the case are done (a result that is
+    overwritten by a later call shows)."""
+    def __init__(self, a):
+        self.a = a
+
+
+def _kernel_of(k):
+    import numpy as np
+    from persim import images_kernels
+    if k["type"] == "gauss_scalar":
+        return images_kernels.gaussian, {"sigma": float(k["s"])}
+    if k["type"] == "gauss_matrix":
+        return images_kernels.gaussian, {"sigma": np.array([[k["sxx"], k["sxy"]], [k["sxy"], k["syy"]]], dtype=float)}
+    return images_kernels.uniform, {"width": float(k["width"]), "height": float(k["height"])}
+
+
+def _weight_of(w):
+    from persim import images_weights
+    if w["type"] == "persistence":
+        return images_weights.persistence, {"n": w["n"]}
+    if w["type"] == "linear_ramp":
+        return images_weights.linear_ramp, {"low": w["low"], "high": w["high"], "start": w["start"], "end": w["end"]}
+    if w["type"] == "user_signed":
+        return c04.user_weight_signed, {}
+    return c04.user_weight, {}
+
+
+def _set_params(im, attr_fn, attr_params, fn, params, how):
+    """Re-configure through the public attributes: a new dict is assigned, or the dict the imager already holds
+    is updated in place ('mutate'; 'deep' also overwrites a sigma matrix element-wise)."""
+    import numpy as np
+    cur = getattr(im, attr_params)
+    if how in ("mutate", "deep") and getattr(im, attr_fn) is fn and isinstance(cur, dict) and set(cur) == set(params):
+        for key, val in params.items():
+            old = cur[key]
+            if how == "deep" and isinstance(old, np.ndarray) and isinstance(val, np.ndarray) and old.shape == val.shape \
+                    and old.flags.writeable:
+                old[...] = val
+            else:
+                cur[key] = val
+        return
+    setattr(im, attr_fn, fn)
+    setattr(im, attr_params, params)
+
+
+def _imager(c, memo):
+    """A fresh imager for a plain case; inside a history THE imager of the history, re-configured to the step's
+    configuration - only what differs from its current configuration is assigned."""
+    import copy
+    if memo is None:
+        return c04.make_imager(c)
+    st = memo.get("__imager__")
+    if st is None:
+        st = memo["__imager__"] = {"im": c04.make_imager(c), "cfg": {k: copy.deepcopy(c[k]) for k in CFG_KEYS}}
+        return st["im"]
+    im, cur = st["im"], st["cfg"]
+    how = c.get("reconf", "assign")
+    if cur["pixel_size"] != c["pixel_size"]:
+        im.pixel_size = c["pixel_size"]
+        cur["birth_range"] = cur["pers_range"] = None          # the setter re-pads both ranges
+    if cur["birth_range"] != c["birth_range"]:
+        im.birth_range = tuple(c["birth_range"])
+    if cur["pers_range"] != c["pers_range"]:
+        im.pers_range = tuple(c["pers_range"])
+    if cur["kernel"] != c["kernel"]:
+        fn, kp = _kernel_of(c["kernel"])
+        _set_params(im, "kernel", "kernel_params", fn, kp, how)
+    if cur["weight"] != c["weight"]:
+        fn, wp = _weight_of(c["weight"])
+        _set_params(im, "weight", "weight_params", fn, wp, how)
+    st["cfg"] = {k: copy.deepcopy(c[k]) for k in CFG_KEYS}
+    return im
+
+
+def _many_sample(n):
+    ks = {0, 1, n // 2, n - 2, n - 1}
+    for T in BLOCKS_QUICK + BLOCKS_MORE + BLOCKS_THOROUGH:
+        ks.update((T - 1, T, T + 1))
+    return sorted(k for k in ks if 0 <= k < n)
+
+
+def impl_call(c, memo=None):
+    """One relation instance.  memo is None for a plain case; inside a history it is the history's shared
+    state: the imager object and the diagram objects (equal-valued diagrams are THE SAME objects)."""
     import copy
     import numpy as np
-    outs = []
-    INT = ("i64", "list_int")
 
-    def mk_arr(cont):
-        return lambda pts: np.array(pts, dtype=np.int64 if cont in INT else float).reshape(-1, 2)
+    cont = c.get("container", "f64")
+    hist = memo is not None
 
-    def conv(x, cont):
+    def build(pts):
+        a = np.array(pts, dtype=np.int64 if cont in INT else float).reshape(-1, 2)
+        if cont == "f64_F":
+            a = np.asfortranarray(a)
+        elif cont == "f64_view":
+            buf = np.full((2 * len(a) + 1, 3), np.nan)
+            buf[1::2, :2] = a
+            a = buf[1::2, :2]                                   # neither C- nor F-contiguous, nan all around
+        elif cont == "f64_ro":
+            a.flags.writeable = False
+        return a
+
+    def arr(pts):
+        if not hist:
+            return build(pts)
+        return history.intern(memo, ["arr", cont, pts], lambda: build(pts))
+
+    def conv(x):
         """Hand a diagram (or a collection of diagrams) over in the container the case names."""
         if isinstance(x, np.ndarray):
-            return x.tolist() if (x.shape[0] and cont in ("list_int", "list_float")) else x
+            if not (x.shape[0] and cont in ("list_int", "list_float")):
+                return x
+            if not hist:
+                return x.tolist()
+            slot = memo.setdefault("__lists__", {})
+            if id(x) not in slot:
+                slot[id(x)] = (x, x.tolist())
+            return slot[id(x)][1]
         if isinstance(x, list) and x and isinstance(x[0], np.ndarray):
-            return [conv(y, cont) for y in x]
+            return [conv(y) for y in x]
         return x
 
     def same(x, y):
@@ -219,104 +568,186 @@ def impl_run(cases):
             bool(np.array_equal(np.asarray(x), np.asarray(y)))
 
     def lst(img):
-        img = np.asarray(img)
-        return {"shape": [int(x) for x in img.shape], "v": [float(x) for x in img.ravel()]}
+        return _Img(img)
 
-    for c in cases:
-        def call():
-            im = c04.make_imager(c)
-            sk = c["skew"]
-            rel = c["rel"]
-            cont = c.get("container", "f64")
-            arr = mk_arr(cont)
+    def call():
+        if c.get("fault"):
+            return _fault(c, memo, arr, conv)
+        im = _imager(c, memo)
+        sk = c["skew"]
+        rel = c["rel"]
 
-            def T(x, **kw):
-                return im.transform(conv(x, cont), **kw)
-            o = {"res": [int(x) for x in im.resolution], "bp": [float(x) for x in im._bpnts],
-                 "pp": [float(x) for x in im._ppnts]}
-            A, B = arr(c["A"]), arr(c["B"])
-            AB = np.vstack([A, B])
-            if rel == "additivity":
-                o["AB"] = lst(T(AB, skew=sk)); o["A"] = lst(T(A, skew=sk)) if len(A) else None
-                o["B"] = lst(T(B, skew=sk)) if len(B) else None
-            elif rel == "permutation":
-                o["AB"] = lst(T(AB, skew=sk)); o["P"] = lst(T(AB[c["perm"]], skew=sk))
-            elif rel == "zero_weight":
-                rows = [list(r) for r in A]
-                for z, pos in zip(c["Z"], c["zpos"]):
-                    rows.insert(min(pos, len(rows)), z)
-                o["A"] = lst(T(A, skew=sk)); o["AZ"] = lst(T(arr(rows), skew=sk))
-                Zf = np.array(c["Z"], dtype=float).reshape(-1, 2)
-                wz = im.weight(Zf[:, 0], (Zf[:, 1] - Zf[:, 0]) if sk else Zf[:, 1], **im.weight_params)
-                o["wz"] = [float(x) for x in np.asarray(wz).ravel()]
-            elif rel == "empty":
-                o["E1"] = lst(T(np.zeros((0, 2)), skew=sk))
-                o["E2"] = lst(T([], skew=sk))
-                r3 = T([np.zeros((0, 2)), A] if len(A) else [np.zeros((0, 2))], skew=sk)
-                o["E3"] = lst(r3[0]); o["E3len"] = len(r3)
-            elif rel == "collection":
-                C = arr(c["C"])
-                o["A"] = lst(T(A, skew=sk)); o["B"] = lst(T(B, skew=sk)); o["C"] = lst(T(C, skew=sk))
-                r1 = T([A], skew=sk)
-                o["L1"] = [lst(x) for x in r1]; o["L1type"] = type(r1).__name__
-                o["L3"] = [lst(x) for x in T([A, B, C], skew=sk)]
-                o["Alist"] = lst(T([list(map(float, r)) for r in A], skew=sk))
-            elif rel == "njobs":
-                o["J"] = {}; o["Jsingle"] = {}       # filled below, grouped by n_jobs (one worker pool per value)
-            elif rel == "skew":
-                A_in = conv(A, cont)
-                A0 = copy.deepcopy(A_in)
-                o["S"] = lst(im.transform(A_in, skew=True))
-                o["unchanged"] = same(A_in, A0)
-                o["S2"] = lst(im.transform(A_in, skew=True))           # same object again: same image
-                Ap = A.copy(); Ap[:, 1] = Ap[:, 1] - Ap[:, 0]
-                o["N"] = lst(T(Ap, skew=False))
-                L = [copy.deepcopy(A0), copy.deepcopy(A0)]
-                r = im.transform(L, skew=True)
-                o["Scoll"] = [lst(x) for x in r]
-                o["unchanged"] = o["unchanged"] and same(L[0], A0) and same(L[1], A0)
-            elif rel == "nonneg_total":
-                o["AB"] = lst(T(AB, skew=sk))
-            elif rel == "fit_transform":
-                def bp_of(X):
-                    Y = X.copy(); Y[:, 1] = Y[:, 1] - Y[:, 0]; return Y
-                coll = bool(c.get("as_collection"))
-                BD = [A, B] if coll else A
-                BP = [bp_of(A), bp_of(B)] if coll else bp_of(A)
+        def T(x, **kw):
+            return im.transform(conv(x), **kw)
+        o = {"res": [int(x) for x in im.resolution], "bp": [float(x) for x in im._bpnts],
+             "pp": [float(x) for x in im._ppnts]}
+        A, B = arr(c["A"]), arr(c["B"])
+        AB = np.vstack([A, B])
+        if rel == "additivity":
+            o["AB"] = lst(T(AB, skew=sk)); o["A"] = lst(T(A, skew=sk)) if len(A) else None
+            o["B"] = lst(T(B, skew=sk)) if len(B) else None
+        elif rel == "permutation":
+            o["AB"] = lst(T(AB, skew=sk)); o["P"] = lst(T(AB[c["perm"]], skew=sk))
+        elif rel == "zero_weight":
+            rows = [list(r) for r in A]
+            for z, pos in zip(c["Z"], c["zpos"]):
+                rows.insert(min(pos, len(rows)), z)
+            o["A"] = lst(T(A, skew=sk)); o["AZ"] = lst(T(arr(rows), skew=sk))
+            Zf = np.array(c["Z"], dtype=float).reshape(-1, 2)
+            wz = im.weight(Zf[:, 0], (Zf[:, 1] - Zf[:, 0]) if sk else Zf[:, 1], **im.weight_params)
+            o["wz"] = [float(x) for x in np.asarray(wz).ravel()]
+        elif rel == "empty":
+            o["E1"] = lst(T(np.zeros((0, 2)), skew=sk))
+            o["E2"] = lst(T([], skew=sk))
+            r3 = T([np.zeros((0, 2)), A] if len(A) else [np.zeros((0, 2))], skew=sk)
+            o["E3"] = lst(r3[0]); o["E3len"] = len(r3)
+        elif rel == "collection":
+            C = arr(c["C"])
+            o["A"] = lst(T(A, skew=sk)); o["B"] = lst(T(B, skew=sk)); o["C"] = lst(T(C, skew=sk))
+            r1 = T([A], skew=sk)
+            o["L1"] = [lst(x) for x in r1]; o["L1type"] = type(r1).__name__
+            o["L3"] = [lst(x) for x in T([A, B, C], skew=sk)]
+            o["Alist"] = lst(T([list(map(float, r)) for r in A], skew=sk))
+        elif rel == "njobs":
+            o["J"] = {}; o["Jsingle"] = {}       # filled by impl_run, grouped by n_jobs (one worker pool per value)
+        elif rel == "skew":
+            A_in = conv(A)
+            A0 = copy.deepcopy(A_in)
+            o["S"] = lst(im.transform(A_in, skew=True))
+            o["unchanged"] = same(A_in, A0)
+            o["S2"] = lst(im.transform(A_in, skew=True))           # same object again: same image
+            Ap = A.copy(); Ap[:, 1] = Ap[:, 1] - Ap[:, 0]
+            o["N"] = lst(T(Ap, skew=False))
+            L = [copy.deepcopy(A0), copy.deepcopy(A0)]
+            r = im.transform(L, skew=True)
+            o["Scoll"] = [lst(x) for x in r]
+            o["unchanged"] = o["unchanged"] and same(L[0], A0) and same(L[1], A0)
+        elif rel == "nonneg_total":
+            o["AB"] = lst(T(AB, skew=sk))
+        elif rel == "styles":
+            # one diagram alone / inside a collection / through the workers branch, the union against parts that
+            # came from a collection and from workers, and the first call repeated after all the others
+            C = arr(c["C"])
+            o["alone"] = lst(T(A, skew=sk))
+            o["coll"] = [lst(x) for x in T([A, B, C], skew=sk)]
+            o["par"] = {}
+            for nj in c.get("njobs", [1]):
+                o["par"][str(nj)] = [lst(x) for x in T([A, B, C], skew=sk, n_jobs=nj)]
+            o["single_par"] = lst(T(A, skew=sk, n_jobs=c.get("njobs", [1])[0]))
+            o["union"] = lst(T(AB, skew=sk))
+            o["again"] = lst(T(A, skew=sk))
+        elif rel == "many":
+            # a long collection: serial, through the workers branch, and a sample of its diagrams one by one
+            D = [arr(g) for g in c["dgms"]]
+            o["L"] = [lst(x) for x in T(D, skew=sk)]
+            o["P"] = {}
+            for nj in c.get("njobs", [1]):
+                o["P"][str(nj)] = [lst(x) for x in T(D, skew=sk, n_jobs=nj)]
+            o["one"] = {str(k): lst(T(D[k], skew=sk)) for k in _many_sample(len(D))}
+        elif rel == "fit_transform":
+            def bp_of(X):
+                Y = X.copy(); Y[:, 1] = Y[:, 1] - Y[:, 0]; return Y
+            coll = bool(c.get("as_collection"))
+            BD = [A, B] if coll else A
+            BP = [bp_of(A), bp_of(B)] if coll else bp_of(A)
 
-                def imgs(r):
-                    return [lst(x) for x in r] if coll else [lst(r)]
+            def imgs(r):
+                return [lst(x) for x in r] if coll else [lst(r)]
 
-                def win(m):
-                    return [list(map(float, m.birth_range)), list(map(float, m.pers_range)), [int(x) for x in m.resolution]]
-                m1 = c04.make_imager(c); o["FT_BD"] = imgs(m1.fit_transform(conv(BD, cont), skew=True)); o["W_BD"] = win(m1)
-                m2 = c04.make_imager(c); o["FT_BP"] = imgs(m2.fit_transform(conv(BP, cont), skew=False)); o["W_BP"] = win(m2)
-                m3 = c04.make_imager(c); m3.fit(conv(BD, cont), skew=True)
-                o["F_T_BD"] = imgs(m3.transform(conv(BD, cont), skew=True)); o["W3"] = win(m3)
-                m4 = c04.make_imager(c); m4.fit(conv(BP, cont), skew=False)
-                o["F_T_BP"] = imgs(m4.transform(conv(BP, cont), skew=False)); o["W4"] = win(m4)
-            if cont in INT and len(A):
-                # the same points as an integer-dtype container and as a float64 array
-                o["PRIM"] = lst(T(A, skew=sk))
-                o["F64"] = lst(im.transform(np.array(c["A"], dtype=float).reshape(-1, 2), skew=sk))
-            return o
-        outs.append(core.guarded(call))
+            def win(m):
+                return [list(map(float, m.birth_range)), list(map(float, m.pers_range)), [int(x) for x in m.resolution]]
+
+            def mk():
+                # inside a history the ONE imager is fitted again and again
+                return im if hist else c04.make_imager(c)
+            m1 = mk(); o["FT_BD"] = imgs(m1.fit_transform(conv(BD), skew=True)); o["W_BD"] = win(m1)
+            m2 = mk(); o["FT_BP"] = imgs(m2.fit_transform(conv(BP), skew=False)); o["W_BP"] = win(m2)
+            m3 = mk(); m3.fit(conv(BD), skew=True)
+            o["F_T_BD"] = imgs(m3.transform(conv(BD), skew=True)); o["W3"] = win(m3)
+            m4 = mk(); m4.fit(conv(BP), skew=False)
+            o["F_T_BP"] = imgs(m4.transform(conv(BP), skew=False)); o["W4"] = win(m4)
+            if hist:
+                m5 = c04.make_imager(c); o["FT_FRESH"] = imgs(m5.fit_transform(conv(BD), skew=True)); o["W_FRESH"] = win(m5)
+                memo["__imager__"]["cfg"]["birth_range"] = memo["__imager__"]["cfg"]["pers_range"] = None
+        if cont in INT and len(A):
+            # the same points as an integer-dtype container and as a float64 array
+            o["PRIM"] = lst(T(A, skew=sk))
+            o["F64"] = lst(im.transform(np.array(c["A"], dtype=float).reshape(-1, 2), skew=sk))
+        if hist and rel in MAIN:
+            # the same configuration on another imager object, same input
+            fresh = c04.make_imager(c)
+            o["FRESH"] = lst(fresh.transform(conv(AB if MAIN[rel] == "AB" else A), skew=sk))
+            o["FRESH_res"] = [int(x) for x in fresh.resolution]
+        return _finish(o)
+    return core.guarded(call)
+
+
+def _fault(c, memo, arr, conv):
+    """A call that is expected to raise inside persim half-way through a collection / with broken parameters."""
+    import numpy as np
+    im = _imager(c, memo)
+    A, B, C = arr(c["A"]), arr(c["B"]), arr(c["C"])
+    bad = np.array([0.5, 1.0, 2.0])                       # not an (n, 2) array
+    kind = c.get("fault_kind")
+    try:
+        if kind == "bad_diagram":
+            im.transform([conv(A), bad, conv(C)], skew=c["skew"])
+        elif kind == "bad_diagram_parallel":
+            im.transform([conv(A), conv(B), bad], skew=c["skew"], n_jobs=1)
+        elif kind == "bad_weight_params":
+            if memo is not None:
+                memo["__imager__"]["cfg"]["weight"] = None
+            im.weight_params = {"bogus": 1.0}
+            im.transform([conv(A), conv(B)], skew=c["skew"])
+        elif kind == "bad_kernel_params":
+            if memo is not None:
+                memo["__imager__"]["cfg"]["kernel"] = None
+            im.kernel_params = {}
+            im.transform([conv(A), conv(B)], skew=c["skew"])
+        return {"raised": None}
+    except Exception as e:  # noqa
+        return {"raised": type(e).__name__}
+
+
+def _finish(o):
+    import numpy as np
+
+    def fin(x):
+        if isinstance(x, _Img):
+            img = np.asarray(x.a)
+            return {"shape": [int(v) for v in img.shape], "v": [float(v) for v in img.ravel()]}
+        if isinstance(x, dict):
+            return {k: fin(v) for k, v in x.items()}
+        if isinstance(x, list):
+            return [fin(v) for v in x]
+        return x
+    return fin(o)
+
+
+def impl_run(cases):
+    import numpy as np
+    outs = [history.run(c, impl_call) if history.is_hist(c) else impl_call(c) for c in cases]
     for nj in (None, 1, 2, 4):
         for c, o in zip(cases, outs):
-            if c["rel"] != "njobs" or "error" in o:
+            if history.is_hist(c) or c["rel"] != "njobs" or "error" in o:
                 continue
             def run():
                 im = c04.make_imager(c)
                 cont = c.get("container", "f64")
-                arr = mk_arr(cont)
+                arr = lambda pts: np.array(pts, dtype=np.int64 if cont in INT else float).reshape(-1, 2)   # noqa
+                conv = lambda x: [conv(y) for y in x] if isinstance(x, list) else \
+                    (x.tolist() if (x.shape[0] and cont in ("list_int", "list_float")) else x)            # noqa
                 A, B, C = arr(c["A"]), arr(c["B"]), arr(c["C"])
                 # n_jobs crossed with skew: the same arrays read as birth-death (skew=True) and as
                 # birth-persistence (skew=False)
+                got = {"J": {}, "Jsingle": {}}
                 for sk in (True, False):
                     key = "%s/%s" % (nj, sk)
-                    o["J"][key] = [lst(x) for x in im.transform(conv([A, B, C], cont), skew=sk, n_jobs=nj)]
+                    got["J"][key] = [_Img(x) for x in im.transform(conv([A, B, C]), skew=sk, n_jobs=nj)]
                     if nj in (None, 1, 2):
-                        o["Jsingle"][key] = lst(im.transform(conv(A, cont), skew=sk, n_jobs=nj))
+                        got["Jsingle"][key] = _Img(im.transform(conv(A), skew=sk, n_jobs=nj))
+                got = _finish(got)
+                o["J"].update(got["J"]); o["Jsingle"].update(got["Jsingle"])
                 return None
             r = core.guarded(run)
             if r is not None:
@@ -327,6 +758,8 @@ def impl_run(cases):
 # ---- the relations (spec), on the implementation's outputs ---------------------------------------
 def _total_weight(c, pts):
     t = 0.0
+    if c["rel"] == "many":
+        pts = [p for g in c["dgms"] for p in g]
     for b, d in pts:
         t += abs(c04._weight_ref(c["weight"], b, (d - b) if c["skew"] else d))
     return t
@@ -348,8 +781,26 @@ def _sum(x, y):
 
 
 def predicate(c, o):
+    if history.is_hist(c):
+        return history.predicate(c, o, predicate)
     if "error" in o:
         return False, "unexpected-error: %s" % o
+    ok, detail = _relation(c, o)
+    if ok and "FRESH" in o:
+        # a step of a history: the relation holds among the calls on the re-used imager; the image must also be
+        # the one a new imager of the same configuration produces
+        res = o["res"]
+        tol = TOL * (1.0 + _total_weight(c, c["A"] + c["B"] + c.get("C", [])))
+        main = {"additivity": "AB", "permutation": "AB", "zero_weight": "A", "collection": "A", "skew": "S",
+                "nonneg_total": "AB", "styles": "alone"}[c["rel"]]
+        e = ("resolutions %s vs %s" % (res, o["FRESH_res"]) if res != o["FRESH_res"] else None) or _close(o[main], o["FRESH"], tol)
+        if e:
+            return False, ("reuse: an imager re-configured through its public attributes and a new imager of the same "
+                           "configuration give different images of the same diagram: %s" % e)
+    return ok, detail
+
+
+def _relation(c, o):
     rel = c["rel"]
     res = o["res"]
     tol = TOL * (1.0 + _total_weight(c, c["A"] + c["B"] + c.get("C", [])))
@@ -434,8 +885,61 @@ def predicate(c, o):
         if not (tot <= tw + tol):
             return False, "total: pixel total %r exceeds total weight %r" % (tot, tw)
         return True, ""
+    if rel == "styles":
+        if len(o["coll"]) != 3:
+            return False, "collection: %d images for 3 diagrams" % len(o["coll"])
+        e = _close(o["alone"], o["coll"][0], 0.0)
+        if e:
+            return False, "collection: transform(D) vs transform([D, ..])[0]: %s" % e
+        e = _close(o["alone"], o["again"], 0.0)
+        if e:
+            return False, "repeat: the same call on the same diagram, before and after other calls: %s" % e
+        for nj, got in sorted(o["par"].items()):
+            if len(got) != 3:
+                return False, "njobs: n_jobs=%s returned %d images for 3 diagrams" % (nj, len(got))
+            for k, (x, y) in enumerate(zip(o["coll"], got)):
+                e = _close(x, y, 0.0)
+                if e:
+                    return False, "njobs: n_jobs=%s image %d differs from serial: %s" % (nj, k, e)
+        e = _close(o["alone"], o["single_par"], 0.0)
+        if e:
+            return False, "njobs: single diagram through the workers branch vs serial: %s" % e
+        if not shape_ok(o["union"]):
+            return False, "shape: %s for resolution %s" % (o["union"]["shape"], res)
+        for what, pa, pb in [("a collection", o["coll"][0], o["coll"][1])] + \
+                [("workers (n_jobs=%s)" % nj, got[0], got[1]) for nj, got in sorted(o["par"].items())]:
+            e = _close(o["union"], _sum(pa, pb), tol)
+            if e:
+                return False, "additivity: image(A u B) != image(A) + image(B) with the parts taken from %s: %s" % (what, e)
+        return True, ""
+    if rel == "many":
+        n = len(c["dgms"])
+        if len(o["L"]) != n:
+            return False, "collection: %d images for %d diagrams" % (len(o["L"]), n)
+        for k, x in enumerate(o["L"]):
+            if x["shape"] != res:
+                return False, "shape: image %d of the collection has shape %s, resolution %s" % (k, x["shape"], res)
+        for k, x in sorted(o["one"].items(), key=lambda kv: int(kv[0])):
+            e = _close(x, o["L"][int(k)], 0.0)
+            if e:
+                return False, "collection: diagram %s of %d alone vs inside the collection (element-wise, in order): %s" % (k, n, e)
+        for nj, got in sorted(o["P"].items()):
+            if len(got) != n:
+                return False, "njobs: n_jobs=%s returned %d images for %d diagrams" % (nj, len(got), n)
+            for k, (x, y) in enumerate(zip(o["L"], got)):
+                e = _close(x, y, 0.0)
+                if e:
+                    return False, "njobs: n_jobs=%s image %d of %d differs from serial: %s" % (nj, k, n, e)
+        return True, ""
     if rel == "fit_transform":
         ref = o["FT_BD"]
+        if "FT_FRESH" in o:
+            if o["W_FRESH"] != o["W_BD"]:
+                return False, "reuse: a re-used imager fitted window %s, a new imager of the same configuration %s" % (o["W_BD"], o["W_FRESH"])
+            for k, (x, y) in enumerate(zip(ref, o["FT_FRESH"])):
+                e = _close(x, y, tol)
+                if e:
+                    return False, "reuse: fit_transform on a re-used imager vs on a new imager of the same configuration, diagram %d: %s" % (k, e)
         if any(x["shape"] != o["W_BD"][2] or 0 in x["shape"] for x in ref):
             return False, "fit-transform: image shapes %s for fitted resolution %s" % ([x["shape"] for x in ref], o["W_BD"][2])
         for name, w in (("W_BP", "fit_transform(BP, skew=False)"), ("W3", "fit(BD, skew=True)"), ("W4", "fit(BP, skew=False)")):
@@ -454,12 +958,18 @@ def predicate(c, o):
 
 
 def nontrivial(c, o):
+    if history.is_hist(c):
+        return history.nontrivial(c, o, nontrivial)
     if "error" in o:
         return False
     if c["rel"] == "empty":
         return True
+    if c["rel"] == "many":
+        return len(o["L"]) > c.get("block", 0) and any(max(abs(v) for v in x["v"]) > 1e-9 for x in o["L"])
+    if c.get("block") and len(c["A"]) + (len(c["B"]) if c["rel"] != "collection" else 0) <= c["block"]:
+        return False                      # a size class whose diagram does not exceed its block size
     key = {"additivity": "AB", "permutation": "AB", "zero_weight": "A", "collection": "A", "skew": "S",
-           "nonneg_total": "AB"}.get(c["rel"])
+           "nonneg_total": "AB", "styles": "alone"}.get(c["rel"])
     x = o["J"]["None/True"][0] if c["rel"] == "njobs" else (o["FT_BD"][0] if c["rel"] == "fit_transform" else o.get(key))
     if x is None or max(abs(v) for v in x["v"]) <= 1e-9:
         return False
@@ -486,7 +996,7 @@ def coq_judge(cases, outs, results):
     for i, (c, o) in enumerate(zip(cases, outs)):
         if len(idx) >= MAX_CERT:
             break
-        if c["rel"] != "additivity" or "error" in o or not c04.certifiable(c):
+        if history.is_hist(c) or c["rel"] != "additivity" or "error" in o or not c04.certifiable(c):
             continue
         if len(c["A"]) + len(c["B"]) > 3 or not c["A"] or not c["B"] or o["AB"]["shape"][0] * o["AB"]["shape"][1] > 6:
             continue
@@ -509,11 +1019,37 @@ def coq_judge(cases, outs, results):
     return verdicts
 
 
+def _without(c, key, lo, hi):
+    """The case without points lo..hi-1 of list `key` (a permutation is re-labelled, order preserved)."""
+    d = dict(c)
+    d[key] = c[key][:lo] + c[key][hi:]
+    if c["rel"] == "permutation":
+        off = 0 if key == "A" else len(c["A"])
+        gone = set(range(off + lo, off + hi))
+        rank, r = {}, 0
+        for j in range(len(c["A"]) + len(c["B"])):
+            if j not in gone:
+                rank[j] = r
+                r += 1
+        d["perm"] = [rank[j] for j in c["perm"] if j not in gone]
+    return d
+
+
 def shrink_candidates(c):
-    for key in ("A", "B", "C"):
+    if history.is_hist(c):
+        yield from history.shrink(c)
+        return
+    keys = ("dgms",) if c["rel"] == "many" else ("A", "B", "C")
+    for key in sorted(keys, key=lambda k: len(c.get(k) or [])):      # short lists first
         pts = c.get(key) or []
-        if len(pts) > 1 and c["rel"] != "permutation":
+        if len(pts) > 24:
+            # long lists: halves and quarters only (every candidate is a run of the implementation)
+            for parts in (2, 4):
+                step = len(pts) // parts
+                for k in range(parts):
+                    yield _without(c, key, k * step, (k + 1) * step)
+        elif len(pts) > 1:
             for i in range(len(pts)):
-                d = dict(c); d[key] = pts[:i] + pts[i + 1:]; yield d
+                yield _without(c, key, i, i + 1)
     if c["weight"]["type"] != "persistence" and c["rel"] != "zero_weight":
         d = dict(c); d["weight"] = {"type": "persistence", "n": 1.0}; yield d
